@@ -192,7 +192,7 @@ theorem walk_ok_iff_core (e : Env) (s : St) (lh : Int) (dest : Nat) (prune : Boo
   rw [walk_eq_core]
   cases h : (walkCore e s lh dest prune).2 <;> simp
 
-/-- with an empty pool there is nothing to re-admit -/
+/-- with an empty pool there is nothing to put back -/
 theorem walk_eq_core_of_pool_nil (e : Env) (s : St) (lh : Int) (dest : Nat) (prune : Bool) (hp : s.pool = []) :
     walk e s lh dest prune = walkCore e s lh dest prune := by
   rw [walk_eq_core, hp]
